@@ -542,6 +542,89 @@ def alloc_sizes(f):
     return out, n
 
 
+PURE_LIBC = {"strlen", "memcmp", "strcmp", "strncmp", "strcasecmp", "strncasecmp", "strchr", "strrchr", "strstr", "strcspn", "strspn", "memchr",
+             "__errno_location", "__builtin_expect", "__builtin_constant_p"}
+_impure_memo = {}
+
+
+def has_effects(prog, g, depth=0):
+    """g stores into something other than its own locals, or calls something that does (or that is not known)."""
+    k = (g.unit.path, g.name)
+    if k in _impure_memo:
+        return _impure_memo[k]
+    _impure_memo[k] = False
+    locs = set()
+    for e in g.all_elems():
+        if e.cls == "DeclStmt":
+            for d in e.decls or []:
+                if isinstance(d, dict) and d.get("kind") == "local" and not d.get("static"):
+                    locs.add(d["id"])
+    res = False
+    for e in g.all_elems():
+        if e.is_assign or e.is_incdec:
+            t = norm(e.kid(0))
+            if not (t[0] == "v" and len(t) > 2 and t[2] in locs):
+                res = True
+                break
+        if e.cls == "CallExpr" and e.callee and e.callee not in PURE_LIBC and e.callee != "__assert_fail":
+            h = prog.resolve(g, e.callee)
+            # a callee outside the analysed units is not held against the caller (the rule reports what it can show)
+            if h is not None and depth < 4 and has_effects(prog, h, depth + 1):
+                res = True
+                break
+    _impure_memo[k] = res
+    return res
+
+
+def assert_effects(prog, f):
+    """[(assert condition, what)] for assertions whose argument does something: an assignment, an increment, or a call of a function
+    that has effects -- compiled with NDEBUG the work disappears with the check."""
+    out = []
+    n = 0
+    for b in f.blocks.values():
+        if b.cond is None or len(b.succs) != 2:
+            continue
+        tg = [f.blocks[x] for x in b.succs if x is not None]
+        if not any(any(e.cls == "CallExpr" and e.callee == "__assert_fail" for e in t.elems) for t in tg):
+            continue
+        n += 1
+        for e in b.elems:
+            if "assert" not in e.macro:
+                continue
+            if e.is_assign or e.is_incdec:
+                out.append((b.cond, "an assignment (`%s`)" % e.text[:30]))
+            elif e.cls == "CallExpr" and e.callee and e.callee not in PURE_LIBC:
+                h = prog.resolve(f, e.callee)
+                if h is not None and has_effects(prog, h):
+                    out.append((b.cond, "a call of %s(), which has effects" % e.callee))
+    return out, n
+
+
+def imalloc_tests(f):
+    """[call] for `imalloc(n, size)` results taken for a failed allocation without regard to n: imalloc answers NULL for n == 0 by
+    design, so a NULL is a failure only where n > 0 is known (the IMALLOC macro tests both)."""
+    out = []
+    n = 0
+    for b in f.blocks.values():
+        if b.cond is None or len(b.succs) != 2:
+            continue
+        for truth in (True, False):
+            for op, L, R, Le, _ in cond_atoms_(b.cond, truth):
+                k = Le.strip() if Le is not None else None
+                if k is None or k.cls != "CallExpr" or k.callee != "imalloc" or op != "==" or R != ("c", 0):
+                    continue
+                n += 1
+                cnt = norm(k.arg(0)) if k.arg(0) is not None else None
+                at = [(o, l, r) for o, l, r, _, _ in cond_atoms_(b.cond, truth)] + [(o, l, r) for c2, t2 in f.edge_conds(b.cond) for o, l, r, _, _ in cond_atoms_(c2, t2)]
+                # ... or tested right after, before anything else is done on that edge: (p = imalloc(n, ..)) == NULL && n > 0
+                sx = b.succs[0] if truth else b.succs[1]
+                if sx is not None and f.blocks[sx].cond is not None and not any(e.cls == "CallExpr" or e.is_assign for e in f.blocks[sx].elems):
+                    at += [(o, l, r) for o, l, r, _, _ in cond_atoms_(f.blocks[sx].cond, True)] + [(o, l, r) for o, l, r, _, _ in cond_atoms_(f.blocks[sx].cond, False)]
+                if not any(l == cnt and ((o == ">" and r == ("c", 0)) or (o == "!=" and r == ("c", 0)) or (o == ">=" and r == ("c", 1)) or (o == "<=" and r == ("c", 0)) or (o == "==" and r == ("c", 0))) for o, l, r in at):
+                    out.append(k)
+    return out, n
+
+
 def apply(rep, pid, files, tier):
     """Run the reference rules on the .c files among `files` that are library units."""
     from . import cdb as _cdb
@@ -586,6 +669,26 @@ def apply(rep, pid, files, tier):
                                 % name, function=f.name, construct="uninit:" + name)
                     if not bad:
                         rep.ok("UNINIT", "%s: every read of a local follows an assignment to it" % f.name, f.loc, "%d reads" % nreads)
+            # ASSERT-effect, IMALLOC-zero (no reference needed)
+            if f.file == up or f.file in files:
+                bad, na = assert_effects(prog, f)
+                if na:
+                    n += 1
+                    for ce, what in bad:
+                        rep.bad("ASSERT-effect", "%s: `%s`" % (f.name, ce.text[:50]), ce.where,
+                                "the asserted expression contains %s: in a build with NDEBUG the assertion, and this work with it, is compiled out" % what,
+                                function=f.name, construct="assert-effect")
+                    if not bad:
+                        rep.ok("ASSERT-effect", "%s: assertions only look" % f.name, f.loc, "%d assertions" % na)
+                bad, ni = imalloc_tests(f)
+                if ni:
+                    n += 1
+                    for c in bad:
+                        rep.bad("IMALLOC-zero", "%s: `%s`" % (f.name, c.text[:50]), c.where,
+                                "a NULL from imalloc() is taken for a failed allocation without a test that the count is non-zero: imalloc answers NULL "
+                                "for zero records by design", function=f.name, construct="imalloc-zero")
+                    if not bad:
+                        rep.ok("IMALLOC-zero", "%s: NULL from imalloc is a failure only for a non-zero count" % f.name, f.loc, "%d tests" % ni)
             # ALLOCSIZE (no reference needed)
             if f.file == up or f.file in files:
                 bad, na = alloc_sizes(f)
